@@ -318,7 +318,9 @@ func run(root, id, tier string) int {
 			continue
 		}
 		if o.res == nil {
-			infra = append(infra, fmt.Sprintf("shard %d produced no result (exit %d, timed out %v, err %v):\n%s", i, o.exit, o.timed, o.err, tail(o.log, 25)))
+			infra = append(infra, fmt.Sprintf("shard %d produced no result (exit %d, timed out %v, err %v):\n%s", i, o.exit, o.timed, o.err, crashSummary(o.log)))
+			_ = os.MkdirAll(filepath.Join(root, "replay", id), 0o755)
+			_ = os.WriteFile(filepath.Join(root, "replay", id, fmt.Sprintf("lost-shard-%d.log", i)), []byte(clip(o.log, 400000)), 0o644)
 			continue
 		}
 		r := o.res
@@ -607,4 +609,27 @@ func parseFuzzBytes(s string) ([]byte, bool) {
 		return nil, false
 	}
 	return []byte(u), true
+}
+
+// crashSummary shows where a dead shard's log starts to matter: the first fatal error / panic line and what
+// follows it (the tail of such a log is only the runtime's idle goroutines).
+func crashSummary(log string) string {
+	lines := strings.Split(log, "\n")
+	for k, l := range lines {
+		if strings.HasPrefix(l, "fatal error") || strings.HasPrefix(l, "panic:") || strings.HasPrefix(l, "runtime:") || strings.Contains(l, "signal: killed") {
+			end := k + 45
+			if end > len(lines) {
+				end = len(lines)
+			}
+			return strings.Join(lines[k:end], "\n")
+		}
+	}
+	return tail(log, 25)
+}
+
+func clip(s string, n int) string {
+	if len(s) <= n {
+		return s
+	}
+	return s[:n/2] + "\n...\n" + s[len(s)-n/2:]
 }
